@@ -12,10 +12,18 @@ Decided (shape of the code, all inputs):
          html sniff and not json, plain otherwise), str is encoded before the bytes classification,
          non-Sized values are stringified with a *bound* callable, everything else is handed to
          _serialize_to_resp; _serialize_to_resp hands application/json to json_render and text/html to
-         tabular_render;
+         tabular_render; every str / bytes result -- the empty one included, an abstract result of its own in
+         the path enumeration -- takes the text branch: a truthiness / length test on the text value (or on its
+         encoded form) never decides between "text" and "not text" (type tests / ``is not None`` do);
   R17.d  ClasticJSONEncoder.default raises TypeError only when dev_mode is false and returns repr()
          when it is true; render_basic / render_json_dev / HTTPException.to_json are built in dev mode;
-  R17.e  the format->mime table and the branches of _serialize_to_resp agree; the default mime is served.
+  R17.e  the format->mime table and the branches of _serialize_to_resp agree; the default mime is served;
+  R17.f  every ``.format(...)`` / ``.format_map(...)`` / ``%`` in the render modules and in the clastic functions
+         reachable from the renderers formats a template made of string constants only (literals, named constants,
+         their concatenations / joins); endpoint data -- docstrings, labels, values -- is passed as an argument and
+         never concatenated or interpolated into the template (a brace / percent sign in it would raise => 500).
+Nothing is decided by running clastic code: paths are enumerated symbolically over the abstract results
+{non-empty str, non-empty bytes, '', b'', Sized non-text, unsized}.
 Declined: JSON validity / round trip, HTML table shapes (third-party Table), streaming -- values.
 """
 import ast
@@ -473,6 +481,8 @@ _COLLECTION_ABCS = ('Sized', 'Collection', 'Sequence', 'MutableSequence', 'Mappi
 _NOT_TEXT = ('Mapping', 'MutableMapping', 'Set', 'MutableSet', 'MutableSequence', 'dict', 'list', 'tuple', 'set', 'frozenset',
              'bytearray', 'int', 'float', 'bool', 'complex', 'type', 'OrderedDict', 'defaultdict', 'deque', 'Generator',
              'Iterator', 'Callable', 'NoneType')
+TEXT = ('str', 'bytes')            # non-empty text
+EMPTY_TEXT = ('str0', 'bytes0')     # '' and b''
 _TEXT_ABCS = ('Sized', 'Iterable', 'Container', 'Collection', 'Sequence', 'Reversible', 'Hashable', 'object')
 
 
@@ -528,10 +538,62 @@ def _class_names(mod, expr, depth=0):
     return None
 
 
+def _base(T):
+    """'str0' / 'bytes0' (the *empty* text) -> 'str' / 'bytes'."""
+    return T[:-1] if T in EMPTY_TEXT else T
+
+
+def _abs_empty(expr, ctx, T):
+    """Emptiness of a text-valued substituted expression when the endpoint result has abstract type T: True (certainly
+    empty), False (certainly not empty), None (depends on the value).  'str' / 'bytes' stand for the non-empty text,
+    'str0' / 'bytes0' for the empty one."""
+    if isinstance(expr, ast.Name):
+        if expr.id != ctx:
+            return None
+        return True if T in EMPTY_TEXT else (False if T in TEXT else None)
+    if isinstance(expr, ast.Constant):
+        return len(expr.value) == 0 if isinstance(expr.value, (str, bytes)) else None
+    if _abs_type(expr, ctx, T) not in TEXT:
+        return None
+    if isinstance(expr, ast.Subscript) and isinstance(expr.slice, ast.Slice):
+        e = _abs_empty(expr.value, ctx, T)
+        if e is True:
+            return True
+        sl = expr.slice
+        if e is False and sl.lower is None and sl.step is None and isinstance(sl.upper, ast.Constant) and \
+                isinstance(sl.upper.value, int) and not isinstance(sl.upper.value, bool) and sl.upper.value > 0:
+            return False    # a non-empty prefix of a non-empty text
+        return None
+    if isinstance(expr, ast.BinOp) and isinstance(expr.op, ast.Add):
+        l, r = _abs_empty(expr.left, ctx, T), _abs_empty(expr.right, ctx, T)
+        if l is True and r is True:
+            return True
+        if l is False or r is False:
+            return False
+        return None
+    if isinstance(expr, ast.Call):
+        f = expr.func
+        if isinstance(f, ast.Attribute):
+            e = _abs_empty(f.value, ctx, T)
+            if f.attr in ('lower', 'upper', 'swapcase', 'title', 'capitalize', 'casefold'):
+                return e
+            if f.attr in ('encode', 'decode'):
+                # a lossy error handler (errors='ignore') may drop every character of a non-empty text
+                strict = len(expr.args) <= 1 and not any(k.arg in ('errors', None) for k in expr.keywords)
+                return e if e is True or strict else None
+            if f.attr in ('strip', 'lstrip', 'rstrip', 'replace', 'expandtabs', 'translate'):
+                return True if e is True and f.attr not in ('replace', 'translate') else None
+            return None
+        if isinstance(f, ast.Name) and f.id in ('str', 'bytes') and len(expr.args) == 1 and not expr.keywords and \
+                _abs_type(expr.args[0], ctx, T) == f.id:
+            return _abs_empty(expr.args[0], ctx, T)
+    return None
+
+
 def _abs_type(expr, ctx, T):
     """Abstract type of a substituted expression when the endpoint result (parameter ctx) has abstract type T."""
     if isinstance(expr, ast.Name):
-        return T if expr.id == ctx else None
+        return _base(T) if expr.id == ctx else None
     if isinstance(expr, ast.Constant):
         return 'str' if isinstance(expr.value, str) else ('bytes' if isinstance(expr.value, bytes) else None)
     if isinstance(expr, ast.JoinedStr):
@@ -576,6 +638,10 @@ def _decide_typed(mod, ctx, T):
         if isinstance(atom, ast.Call) and isinstance(atom.func, ast.Name) and atom.func.id == 'isinstance' and len(atom.args) == 2 \
                 and not atom.keywords:
             t = _abs_type(atom.args[0], ctx, T)
+            if isinstance(atom.args[0], ast.Constant) and atom.args[0].value is None:
+                # the "not text" marker of a normalising helper / local
+                names = _class_names(mod, atom.args[1])
+                return any(n in ('object', 'NoneType') for n in names) if names else None
             if t not in ('str', 'bytes', 'sized', 'unsized'):
                 return None
             names = _class_names(mod, atom.args[1])
@@ -593,8 +659,65 @@ def _decide_typed(mod, ctx, T):
                 return atom.left.value is None
             if _abs_type(atom.left, ctx, T) in ('str', 'bytes', 'sized'):
                 return False
-        return None
+        return _decide_emptiness(atom, ctx, T)
     return decide
+
+
+def _decide_emptiness(atom, ctx, T):
+    """Truth value of a test that looks at the *emptiness* of a text value: its truthiness, ``bool(v)``, ``len(v)``,
+    ``len(v) <op> <int>``, ``v == ''`` -- decided for the abstract values "empty text" / "non-empty text"."""
+    def emptiness(e):
+        return _abs_empty(e, ctx, T) if _abs_type(e, ctx, T) in TEXT else None
+
+    def length_of(e):
+        if isinstance(e, ast.Call) and isinstance(e.func, ast.Name) and e.func.id == 'len' and len(e.args) == 1 and not e.keywords:
+            return emptiness(e.args[0])
+        if isinstance(e, ast.Call) and isinstance(e.func, ast.Attribute) and e.func.attr == '__len__' and not e.args:
+            return emptiness(e.func.value)
+        return None
+    if isinstance(atom, ast.Call) and isinstance(atom.func, ast.Name) and atom.func.id == 'bool' and len(atom.args) == 1 \
+            and not atom.keywords:
+        atom = atom.args[0]
+    e = emptiness(atom)
+    if e is None:
+        e = length_of(atom)
+    if e is not None:
+        return not e
+    if isinstance(atom, ast.Compare) and len(atom.ops) == 1:
+        l, op, r = atom.left, atom.ops[0], atom.comparators[0]
+        # len(v) <op> n  /  n <op> len(v)
+        for a, b, swapped in ((l, r, False), (r, l, True)):
+            e = length_of(a)
+            if e is not None and isinstance(b, ast.Constant) and isinstance(b.value, int) and not isinstance(b.value, bool):
+                n = b.value
+                # the length is 0 (empty) or some value >= 1 (non-empty): the comparison is decided when both 1 and
+                # "arbitrarily large" agree
+                cmp = {ast.Eq: lambda x, y: x == y, ast.NotEq: lambda x, y: x != y, ast.Lt: lambda x, y: x < y,
+                       ast.LtE: lambda x, y: x <= y, ast.Gt: lambda x, y: x > y, ast.GtE: lambda x, y: x >= y}.get(type(op))
+                if cmp is None:
+                    return None
+                f = (lambda x: cmp(n, x)) if swapped else (lambda x: cmp(x, n))
+                if e is True:
+                    return f(0)
+                lo, hi = f(1), f(max(abs(n), 1) + 2)
+                mid = [f(k) for k in range(1, max(abs(n), 1) + 3)]
+                return lo if lo == hi and all(m == lo for m in mid) else None
+        # v == '' / v == b''
+        if isinstance(op, ast.Eq):
+            for a, b in ((l, r), (r, l)):
+                if isinstance(b, ast.Constant) and isinstance(b.value, (str, bytes)):
+                    e = emptiness(a)
+                    ta = _abs_type(a, ctx, T)
+                    tb = 'str' if isinstance(b.value, str) else 'bytes'
+                    if e is None or ta not in TEXT:
+                        continue
+                    if ta != tb:
+                        return False
+                    if len(b.value) == 0:
+                        return e
+                    if e is True:
+                        return False
+    return None
 
 
 def _sniff_kind(atom):
@@ -836,13 +959,342 @@ def _mime_tests(cs, fold=None):
     return out
 
 
+# ---------------------------------------------------------------------------------------------- format templates
+T_CONST, T_DATA, T_NUM, T_UNKNOWN = 'constant', 'data', 'number', 'unknown'
+_NUM_CALLS = ('len', 'int', 'float', 'abs', 'ord', 'round', 'hash', 'sum', 'divmod', 'id')
+_TEXT_CALLS = ('str', 'repr', 'ascii', 'format', 'chr', 'hex', 'oct', 'bin')
+_TEXT_METHODS = ('strip', 'lstrip', 'rstrip', 'lower', 'upper', 'title', 'capitalize', 'replace', 'ljust', 'rjust', 'center',
+                 'expandtabs', 'zfill', 'swapcase', 'casefold', 'decode', 'encode')
+
+
+class _Templates(object):
+    """What a string-valued expression of a function is made of -- by shape, flow-sensitively through the locals:
+    T_CONST (string constants only: literals, named module / class level constants, their concatenations, joins and
+    copies), T_DATA (a text into which something that is not a constant was concatenated / interpolated / joined),
+    T_NUM (an arithmetic value: ``%`` on it is the modulo), T_UNKNOWN (a parameter, an attribute, the result of a call
+    the analysis does not read)."""
+
+    def __init__(self, repo, fi):
+        from ..effects import Flow
+        self.repo, self.fi = repo, fi
+        self.flow = Flow(fi)
+        self.params = set(fi.params())
+        # names bound by a lambda / comprehension inside the function: not locals of the function
+        self.inner = set()
+        for n in ast.walk(fi.node):
+            if isinstance(n, ast.Lambda):
+                a = n.args
+                self.inner.update(x.arg for x in a.posonlyargs + a.args + a.kwonlyargs + [y for y in (a.vararg, a.kwarg) if y])
+            elif isinstance(n, (ast.ListComp, ast.SetComp, ast.DictComp, ast.GeneratorExp)):
+                self.inner.update(x.id for g in n.generators for x in ast.walk(g.target) if isinstance(x, ast.Name))
+            elif isinstance(n, (ast.FunctionDef, ast.AsyncFunctionDef)) and n is not fi.node:
+                self.inner.add(n.name)
+
+    def stmt_of(self, node):
+        return self.flow.stmt_of(node)
+
+    @staticmethod
+    def join(kinds):
+        """The class of a value that is one of several alternatives."""
+        kinds = list(kinds)
+        if not kinds:
+            return T_UNKNOWN
+        if T_DATA in kinds:
+            return T_DATA
+        if T_UNKNOWN in kinds:
+            return T_UNKNOWN
+        if all(k == T_CONST for k in kinds):
+            return T_CONST
+        if all(k == T_NUM for k in kinds):
+            return T_NUM
+        return T_UNKNOWN
+
+    def _folded(self, expr):
+        try:
+            v = _fold_const(self.repo, None, expr) if isinstance(expr, ast.Constant) else (
+                _fold_const(self.repo, self.fi, expr) if isinstance(expr, ast.Attribute) else self.repo.try_fold(expr, self.fi.mod))
+        except Exception:
+            v = None
+        return v
+
+    @staticmethod
+    def _of_value(v):
+        if isinstance(v, (str, bytes)):
+            return T_CONST
+        if isinstance(v, bool) or v is None:
+            return T_UNKNOWN
+        if isinstance(v, (int, float)):
+            return T_NUM
+        if isinstance(v, (list, tuple)) and v and all(isinstance(x, (str, bytes)) for x in v):
+            return T_CONST
+        return T_UNKNOWN
+
+    @staticmethod
+    def binop(op, l, r):
+        texty = (T_CONST, T_DATA)
+        if isinstance(op, ast.Add):
+            if l == T_CONST and r == T_CONST:
+                return T_CONST
+            if T_NUM in (l, r):
+                return T_NUM
+            return T_DATA if (l in texty or r in texty) else T_UNKNOWN
+        if isinstance(op, ast.Mod):
+            if l in texty:
+                return T_DATA      # a formatted text: contains whatever was interpolated
+            return T_NUM if T_NUM in (l, r) else T_UNKNOWN
+        if isinstance(op, ast.Mult):
+            if (l == T_CONST and r == T_NUM) or (l == T_NUM and r == T_CONST):
+                return T_CONST     # a constant repeated: still constants only
+            if l in texty or r in texty:
+                return T_DATA
+            return T_NUM if (l == T_NUM and r == T_NUM) else T_UNKNOWN
+        return T_NUM
+
+    _SEQ_READS = ('join', 'len', 'list', 'tuple', 'sorted', 'reversed', 'enumerate', 'iter', 'any', 'all', 'bool')
+    _SEQ_METHODS = ('append', 'add', 'insert', 'extend', 'update', 'sort', 'reverse', 'copy', 'index', 'count')
+
+    def _escapes(self, name):
+        """Is the local sequence ``name`` used in any way other than being filled, read and joined -- aliased, passed to
+        a call that may fill it, its bound ``append`` stored away (``_add = ret.append``)?  Then what it contains
+        cannot be read off the appends."""
+        parents = self.fi.mod.parents
+        for n in ast.walk(self.fi.node):
+            if not (isinstance(n, ast.Name) and n.id == name and isinstance(n.ctx, ast.Load)):
+                continue
+            par = parents.get(n)
+            if isinstance(par, ast.Attribute) and par.value is n and par.attr in self._SEQ_METHODS:
+                gp = parents.get(par)
+                if isinstance(gp, ast.Call) and gp.func is par:
+                    continue
+                return True
+            if isinstance(par, ast.Call) and n in par.args:
+                f = par.func
+                if (isinstance(f, ast.Attribute) and f.attr == 'join') or (isinstance(f, ast.Name) and f.id in self._SEQ_READS):
+                    continue
+                return True
+            if isinstance(par, (ast.For, ast.comprehension)) and par.iter is n:
+                continue
+            if isinstance(par, ast.Subscript) and par.value is n and isinstance(par.ctx, ast.Load):
+                continue
+            if isinstance(par, (ast.If, ast.While, ast.UnaryOp, ast.BoolOp, ast.Compare)):
+                continue
+            if isinstance(par, ast.AugAssign):
+                continue
+            return True
+        return False
+
+    def elements(self, expr, at, seen, depth):
+        """Class of the *elements* of a sequence expression handed to ``sep.join(...)``."""
+        if depth > 10:
+            return T_UNKNOWN
+        if isinstance(expr, (ast.List, ast.Tuple, ast.Set)):
+            if any(isinstance(e, ast.Starred) for e in expr.elts):
+                return self.join([self.elements(e.value, at, seen, depth + 1) if isinstance(e, ast.Starred)
+                                  else self.kind(e, at, seen, depth + 1) for e in expr.elts])
+            return self.join([self.kind(e, at, seen, depth + 1) for e in expr.elts]) if expr.elts else T_CONST
+        if isinstance(expr, ast.Call) and isinstance(expr.func, ast.Name) and expr.func.id in ('list', 'tuple', 'sorted', 'reversed') \
+                and len(expr.args) == 1 and not expr.keywords and expr.func.id not in self.params:
+            return self.elements(expr.args[0], at, seen, depth + 1)
+        if isinstance(expr, ast.BinOp) and isinstance(expr.op, ast.Add):
+            return self.join([self.elements(expr.left, at, seen, depth + 1), self.elements(expr.right, at, seen, depth + 1)])
+        if isinstance(expr, (ast.ListComp, ast.GeneratorExp, ast.SetComp)):
+            k = self.kind(expr.elt, at, seen, depth + 1)
+            return k if k in (T_CONST, T_DATA) else T_UNKNOWN
+        if isinstance(expr, ast.Name) and expr.id not in self.inner:
+            name = expr.id
+            stores = [n for n in walk_body(self.fi.node) if isinstance(n, ast.Name) and n.id == name and isinstance(n.ctx, (ast.Store, ast.Del))]
+            if stores and name not in self.params:
+                # a list assembled in this function: every literal it is bound to, everything appended to it
+                key = ('elts', name)
+                if key in seen:
+                    return T_CONST
+                seen = seen | {key}
+                kinds = []
+                n_bind = 0
+                for st in stmts_of(self.fi.node):
+                    if isinstance(st, ast.Assign) and any(isinstance(t, ast.Name) and t.id == name for t in st.targets):
+                        n_bind += 1
+                        kinds.append(self.elements(st.value, st, seen, depth + 1))
+                    elif isinstance(st, ast.AnnAssign) and isinstance(st.target, ast.Name) and st.target.id == name and st.value is not None:
+                        n_bind += 1
+                        kinds.append(self.elements(st.value, st, seen, depth + 1))
+                    elif isinstance(st, ast.AugAssign) and isinstance(st.target, ast.Name) and st.target.id == name:
+                        n_bind += 1
+                        kinds.append(self.elements(st.value, st, seen, depth + 1) if isinstance(st.op, ast.Add) else T_UNKNOWN)
+                if n_bind != len(stores) or self._escapes(name):
+                    return T_UNKNOWN
+                for c in walk_body(self.fi.node):
+                    if isinstance(c, ast.Call) and isinstance(c.func, ast.Attribute) and isinstance(c.func.value, ast.Name) and \
+                            c.func.value.id == name and c.args:
+                        cat = self.stmt_of(c)
+                        if c.func.attr in ('append', 'add'):
+                            kinds.append(self.kind(c.args[0], cat, seen, depth + 1))
+                        elif c.func.attr == 'insert' and len(c.args) == 2:
+                            kinds.append(self.kind(c.args[1], cat, seen, depth + 1))
+                        elif c.func.attr in ('extend', 'update'):
+                            kinds.append(self.elements(c.args[0], cat, seen, depth + 1))
+                return self.join(kinds)
+        if isinstance(expr, (ast.Name, ast.Attribute, ast.Subscript)) and not (isinstance(expr, ast.Name) and
+                                                                              (expr.id in self.params or expr.id in self.inner)):
+            v = self._folded(expr)
+            if isinstance(v, (list, tuple)) and all(isinstance(x, (str, bytes)) for x in v):
+                return T_CONST
+        return T_UNKNOWN
+
+    def kind(self, expr, at, seen=frozenset(), depth=0):
+        if expr is None or depth > 12:
+            return T_UNKNOWN
+        rec = lambda e, a=at: self.kind(e, a, seen, depth + 1)
+        if isinstance(expr, ast.Constant):
+            return self._of_value(expr.value)
+        if isinstance(expr, ast.JoinedStr):
+            return T_CONST if all(isinstance(v, ast.Constant) for v in expr.values) else T_DATA
+        if isinstance(expr, ast.IfExp):
+            return self.join([rec(expr.body), rec(expr.orelse)])
+        if isinstance(expr, ast.BoolOp):
+            return self.join([rec(v) for v in expr.values])
+        if isinstance(expr, ast.UnaryOp):
+            return T_NUM if isinstance(expr.op, (ast.USub, ast.UAdd, ast.Invert)) else T_UNKNOWN
+        if isinstance(expr, ast.BinOp):
+            return self.binop(expr.op, rec(expr.left), rec(expr.right))
+        if isinstance(expr, ast.Subscript):
+            if isinstance(expr.slice, ast.Slice):
+                return rec(expr.value)
+            v = self._folded(expr)
+            if v is not None:
+                return self._of_value(v)
+            base = self._folded(expr.value) if isinstance(expr.value, (ast.Name, ast.Attribute)) and not (
+                isinstance(expr.value, ast.Name) and (expr.value.id in self.params or expr.value.id in self.inner or
+                                                      self.flow.defs.get(expr.value.id))) else None
+            if isinstance(base, dict) and base and all(isinstance(x, (str, bytes)) for x in base.values()):
+                return T_CONST     # one entry of a constant table of templates
+            if isinstance(base, (list, tuple)) and base and all(isinstance(x, (str, bytes)) for x in base):
+                return T_CONST
+            return T_UNKNOWN
+        if isinstance(expr, ast.Call):
+            f = expr.func
+            if isinstance(f, ast.Attribute):
+                if f.attr == 'join' and len(expr.args) == 1 and not expr.keywords:
+                    sep = rec(f.value)
+                    if sep in (T_CONST, T_DATA):
+                        el = self.elements(expr.args[0], at, seen, depth + 1)
+                        return T_CONST if (sep == T_CONST and el == T_CONST) else T_DATA
+                    return T_UNKNOWN
+                if f.attr in ('format', 'format_map'):
+                    recv = rec(f.value)
+                    if recv in (T_CONST, T_DATA):
+                        args = [rec(a) for a in expr.args] + [rec(k.value) for k in expr.keywords]
+                        return T_CONST if recv == T_CONST and all(a == T_CONST for a in args) and f.attr == 'format' else T_DATA
+                    return T_UNKNOWN
+                if f.attr in _TEXT_METHODS:
+                    recv = rec(f.value)
+                    if recv == T_CONST:
+                        args = [rec(a) for a in expr.args] + [rec(k.value) for k in expr.keywords]
+                        return T_CONST if all(a in (T_CONST, T_NUM) for a in args) else T_DATA
+                    return recv if recv == T_DATA else T_UNKNOWN
+                return self._call_result(expr, at, seen, depth)
+            if isinstance(f, ast.Name) and f.id not in self.params and f.id not in self.inner and not self.flow.defs.get(f.id):
+                shadowed = f.id in self.fi.mod.functions or f.id in self.fi.mod.classes or f.id in self.fi.mod.imports or \
+                    f.id in self.fi.mod.assigns
+                if not shadowed:
+                    if f.id in _NUM_CALLS:
+                        return T_NUM
+                    if f.id in _TEXT_CALLS:
+                        return T_DATA
+                return self._call_result(expr, at, seen, depth)
+            return T_UNKNOWN
+        if isinstance(expr, ast.Name):
+            name = expr.id
+            if name in self.inner:
+                return T_UNKNOWN
+            if at is None:
+                return T_UNKNOWN
+            ds = self.flow.reaching(name, at)
+            if not self.flow.defs.get(name):
+                if name in self.params:
+                    return T_UNKNOWN
+                v = self._folded(expr)
+                return self._of_value(v) if v is not None else T_UNKNOWN
+            kinds = []
+            for d in ds:
+                key = (name, id(d.stmt))
+                if key in seen:
+                    continue          # around a cycle (x = x + ...): the other definitions decide
+                s2 = seen | {key}
+                if d.kind == 'assign' and d.idx is None and d.value is not None:
+                    kinds.append(self.kind(d.value, d.stmt, s2, depth + 1))
+                elif d.kind == 'aug' and isinstance(d.stmt, ast.AugAssign):
+                    before = self.kind(ast.copy_location(ast.Name(id=name, ctx=ast.Load()), d.stmt), d.stmt, s2, depth + 1)
+                    kinds.append(self.binop(d.stmt.op, before, self.kind(d.stmt.value, d.stmt, s2, depth + 1)))
+                else:
+                    kinds.append(T_UNKNOWN)
+            return self.join(kinds)
+        if isinstance(expr, ast.Attribute):
+            v = self._folded(expr)
+            return self._of_value(v) if v is not None else T_UNKNOWN
+        return T_UNKNOWN
+
+    def why(self, expr, at, depth=0):
+        """Where the data in a T_DATA template comes from (for the message): the binding(s) of the locals on the way."""
+        if isinstance(expr, ast.Name) and depth < 3 and at is not None:
+            for d in self.flow.reaching(expr.id, at):
+                v = d.value if d.kind == 'assign' and d.idx is None else (
+                    d.stmt.value if d.kind == 'aug' and isinstance(d.stmt, ast.AugAssign) else None)
+                if v is not None and self.kind(v, d.stmt) == T_DATA:
+                    inner = [self.why(n, d.stmt, depth + 1) for n in ast.walk(v) if isinstance(n, ast.Name) and n.id != expr.id]
+                    return '%s = %s' % (expr.id, short(v, 70)) + ''.join('; ' + x for x in inner[:2] if x)
+            return ''
+        if isinstance(expr, ast.AST) and depth < 3:
+            parts = [self.why(n, at, depth + 1) for n in ast.iter_child_nodes(expr)]
+            return '; '.join(x for x in parts if x)
+        return ''
+
+    def _call_result(self, call, at, seen, depth):
+        """A call of a parameterless-in-effect helper of the analysed tree that returns a constant template."""
+        try:
+            g = follow_resolver(self.repo, self.fi)(call)
+        except Exception:
+            g = None
+        if g is None or depth > 6:
+            return T_UNKNOWN
+        rets = returns_of(g)
+        if not rets or any(r.value is None for r in rets):
+            return T_UNKNOWN
+        key = ('call', g.key)
+        if key in seen:
+            return T_UNKNOWN
+        sub = _Templates(self.repo, g)
+        kinds = [sub.kind(r.value, r, seen | {key}, depth + 1) for r in rets]
+        k = self.join(kinds)
+        # the helper's own parameters are T_UNKNOWN inside it, so T_CONST / T_DATA do not depend on the arguments
+        return k if k in (T_CONST, T_DATA) else T_UNKNOWN
+
+
+def format_sinks(fnode):
+    """(node, template expression, spelling) of every ``<template>.format(...)`` / ``.format_map(...)`` /
+    ``<template> % ...`` in a function body (lambdas included, nested defs not)."""
+    todo = list(fnode.body)
+    while todo:
+        n = todo.pop()
+        if isinstance(n, (ast.FunctionDef, ast.AsyncFunctionDef, ast.ClassDef)):
+            continue
+        if isinstance(n, ast.Call) and isinstance(n.func, ast.Attribute) and n.func.attr in ('format', 'format_map'):
+            yield n, n.func.value, '.' + n.func.attr
+        elif isinstance(n, ast.BinOp) and isinstance(n.op, ast.Mod):
+            yield n, n.left, '%'
+        elif isinstance(n, ast.AugAssign) and isinstance(n.op, ast.Mod):
+            yield n, n.target, '%='
+        todo.extend(ast.iter_child_nodes(n))
+
+
 def run(rep):
     repo = rep.repo
     simple = repo.mod(SIMPLE)
     tabular = repo.mod(TABULAR)
     errors = repo.mod('clastic.errors')
     rep.decide('R17.a names resolve; R17.b no type-confused classification tests; R17.c label follows test / '
-               'classification order; R17.d dev-mode fallback; R17.e format tables agree')
+               'classification order, empty text is text; R17.d dev-mode fallback; R17.e format tables agree; '
+               'R17.f format templates are constants')
     rep.decline('JSON validity and round trip, HTML table shapes, streaming (values of third-party serialisers)')
     rep.assume('request.args / accept_mimetypes behave as in werkzeug 1.0.1')
 
@@ -864,7 +1316,8 @@ def run(rep):
             check_unbound(rep, 'R17.a', [m], scope_filter=lambda mm, sc, quals=quals: sc in quals)
         rep.floor('R17.a', 20)
 
-    TYPES = ('str', 'bytes', 'sized', 'unsized')
+    TYPES = TEXT + EMPTY_TEXT + ('sized', 'unsized')
+    SHOW = {'str0': 'empty str', 'bytes0': 'empty bytes'}
     _rr = {}
 
     def get_rr():
@@ -963,7 +1416,7 @@ def run(rep):
                         argn(v, 'mimetype', 3) is not None and label_of(st)[0] is None:
                     raise AnalysisError('render_response: the mimetype %s of a returned Response is not a constant the analysis '
                                         'can follow' % short(argn(v, 'mimetype', 3), 60))
-        free_text = [(T, st, c) for T in ('str', 'bytes') for st in paths[T] for c in st.free()]
+        free_text = [(T, st, c) for T in TEXT + EMPTY_TEXT for st in paths[T] for c in st.free()]
         symbolic = bool(free_text) and all(_sniff_kind(c[1])[0] is not None for T, st, c in free_text)
         if not symbolic:
             # some test of the text branch is not one of the two sniffs as such (a guess helper dissolved into its
@@ -995,6 +1448,30 @@ def run(rep):
                     where = (bad or badbody or cons or [None])[0]
                     rep.check('R17.c', fkey(rr, 'label %s: %s' % (want, what)), ok, detail, simple,
                               where.term[2] if where is not None and where.term[2] is not None else rr.node)
+            # the empty text is text: '' and b'' take the text branch like every other str / bytes result (no JSON
+            # container, no HTML document: text/plain) -- a truthiness / length test on the text value (or on its
+            # encoded form) must not decide between "already serialized" and "still to be serialized"
+            for T in EMPTY_TEXT:
+                cons = [st for st in paths[T] if all(p is False for k, a, o, p in sniffs(st))]
+                bad = [st for st in cons if label_of(st)[0] != 'text/plain']
+
+                def empty_body(b):
+                    return b is not None and _abs_type(b, ctx_param, T) in TEXT and _abs_empty(b, ctx_param, T) is True
+                badbody = [st for st in cons if st not in bad and not empty_body(label_of(st)[1])]
+                ok = bool(cons) and not bad and not badbody
+                what = '%s result' % SHOW[T]
+                if ok:
+                    detail = '%s is labelled text/plain on every path (%d)' % (what, len(cons))
+                elif not cons:
+                    detail = 'no path of render_response serves an %s' % what
+                elif bad:
+                    detail = ('the %s is text and must be labelled text/plain like any other text, but the path [%s] %s'
+                              % (what, path_text(bad[0]), term_text(bad[0])))
+                else:
+                    detail = '%s: the response body %s is not the (empty) endpoint result' % (what, short(label_of(badbody[0])[1], 60))
+                where = (bad or badbody or cons or [None])[0]
+                rep.check('R17.c', fkey(rr, 'label text/plain: %s' % what), ok, detail, simple,
+                          where.term[2] if where is not None and where.term[2] is not None else rr.node)
             # str is encoded before the bytes classification: every sniff of a text result looks at bytes
             for T in ('str', 'bytes'):
                 sn = [(k, a, o, st) for st in paths[T] for k, a, o, p in sniffs(st)]
@@ -1050,7 +1527,7 @@ def run(rep):
                     bad.append((T, st, 'evaluates %s (AttributeError)' % short(errs[0], 60)))
         rep.check('R17.c', fkey(rr, 'returns'), not bad,
                   'every path returns a constructed response' if not bad else
-                  'for a %s result the path [%s] %s' % (bad[0][0], path_text(bad[0][1]), bad[0][2]), simple,
+                  'for a %s result the path [%s] %s' % (SHOW.get(bad[0][0], bad[0][0]), path_text(bad[0][1]), bad[0][2]), simple,
                   bad[0][1].term[2] if bad and bad[0][1].term[2] is not None else rr.node)
     def g_serialize():
         # _serialize_to_resp branches
@@ -1299,6 +1776,56 @@ def run(rep):
         rep.check('R17.d', fkey(tj, 'ClasticJSONEncoder'), ok, 'error JSON is encoded in dev mode (never raises on odd details)' if ok else
                   'HTTPException.to_json does not use a dev-mode encoder', errors, tj.node)
 
+    def g_templates():
+        # ---- R17.f -----------------------------------------------------------
+        rep.rule('R17.f', 'every .format(...) / .format_map(...) / % on the render paths formats a template made of string '
+                          'constants only; endpoint data (docstrings, labels, values) is passed as an argument, never concatenated '
+                          'or interpolated into the template')
+        cg = CallGraph(repo)
+        roots = [simple.func('BasicRender.render_response'), simple.func('BasicRender._serialize_to_resp'),
+                 simple.func('JSONRender.__call__'), simple.func('JSONPRender.__call__'),
+                 simple.func('ClasticJSONEncoder.default'), tabular.func('TabularRender.context_to_response')]
+        reach = cg.reachable(roots, kinds=('call', 'self', 'super', 'new', 'role', 'prop', 'classattr', 'instance-call'))
+        scope, seen_f = [], set()
+        for f in list(simple.functions.values()) + list(tabular.functions.values()) + \
+                sorted((f for f in reach if not f.mod.external), key=lambda f: f.key):
+            if id(f) not in seen_f and isinstance(f.node, (ast.FunctionDef, ast.AsyncFunctionDef)):
+                seen_f.add(id(f))
+                scope.append(f)
+        n_sinks, unknown = 0, []
+        for f in scope:
+            tp = None
+            for node, tmpl, how in format_sinks(f.node):
+                if tp is None:
+                    tp = _Templates(repo, f)
+                k = tp.kind(tmpl, tp.stmt_of(node))
+                if k == T_NUM:
+                    continue
+                if k == T_UNKNOWN and how in ('%', '%='):
+                    # ``a % b`` on values of unknown type: string formatting only if something says so
+                    right = node.right if isinstance(node, ast.BinOp) else node.value
+                    rk = tp.kind(right, tp.stmt_of(node))
+                    if rk == T_NUM or not isinstance(right, (ast.Tuple, ast.Dict, ast.JoinedStr)) and rk not in (T_CONST, T_DATA):
+                        continue
+                n_sinks += 1
+                if k == T_UNKNOWN:
+                    unknown.append((f, node, tmpl))
+                    continue
+                ok = k == T_CONST
+                rep.check('R17.f', fkey(f, 'template of ' + norm(node)[:60]), ok,
+                          'format template is made of constants only' if ok else
+                          '%s formats (%s) a template that already contains data (%s): a "{" / "}" / "%%" in that data -- an endpoint '
+                          'docstring, a label, a value -- raises KeyError / ValueError / IndexError inside the renderer (a 500) or '
+                          'substitutes other fields' % (f.qualname, how, short(tmpl, 70) + (
+                              ': ' + tp.why(tmpl, tp.stmt_of(node)) if not ok and tp.why(tmpl, tp.stmt_of(node)) else '')), f.mod, node)
+        if unknown:
+            raise AnalysisError('the template of %s in %s cannot be traced to constants or to data (%d such site(s))'
+                                % (short(unknown[0][1], 60), unknown[0][0].qualname, len(unknown)))
+        rep.ok('R17.f', '%s::render paths' % SIMPLE, '%d function(s) on the render paths scanned, %d formatting site(s)'
+               % (len(scope), n_sinks), simple, None)
+        if len(scope) < 8:
+            raise AnalysisError('render paths: only %d function(s) found to scan for format templates' % len(scope))
+
     def g_labels():
         # JSON renderer labels
         for q, want in (('JSONRender.__call__', 'application/json'), ('JSONPRender.__call__', 'application/javascript')):
@@ -1327,7 +1854,7 @@ def run(rep):
                                     % (fn.__name__, type(e).__name__, e, tb.filename.rpartition('/')[2], tb.lineno))
         group.__name__ = fn.__name__
         return group
-    for g in (g_names, g_guess, g_render, g_serialize, g_encoder, g_labels):
+    for g in (g_names, g_guess, g_render, g_serialize, g_encoder, g_labels, g_templates):
         rep.guard(safely(g))
     # floors are checked after all groups ran, so that one unrecognised construct does not hide the others
     for rule_, n_ in (('R17.c', 9),):
